@@ -222,6 +222,7 @@ class IRSpec:
                     names = [x.strip() for x in target.strip('()').split(',') if x.strip()]
                 else:
                     names = [target]
+                names = [n_[3:] if n_.startswith('ir.') else n_ for n_ in names]        # `from spydrnet import ir` ... ir.Instance
                 if v[0] != 'ref':
                     table = {'set': ['set'], 'int': ['int', 'bool'], 'str': ['str'], 'dict': ['dict_empty', 'pdict', 'memo']}
                     return cont(s, B(BoolVal(any(v[0] in table.get(n, []) for n in names))))
@@ -786,6 +787,66 @@ class IRSpec:
                 raise Unsupported('loop %d of %s iterates a %s, its invariant was written for a %s' % (ordinal, fr.fi.qual, shape, spec.shape))
             self.cut(se, s, node, spec, dom, shape, ordinal, nxt, k_ret)
         se.ev(st, node.iter, with_dom)
+
+    def while_loop(self, se, st, node, nxt, k_ret):
+        """`while cond: body` cut at a sidecar invariant (shape 'while'): the invariant holds on entry; from an arbitrary state that
+        satisfies it and the condition the body re-establishes it (or returns / raises); after the loop: invariant and not condition.
+        Termination is not proved."""
+        c = self.ctx
+        fr = st.frames[-1]
+        ordinal = self.loop_ordinal(fr.fi, node)
+        spec = LOOPS.get((fr.fi.qual, ordinal))
+        if spec is None or spec.shape != 'while':
+            raise Unsupported('no invariant registered for while-loop %d of %s' % (ordinal, fr.fi.qual))
+        fq = st.frames[0].fi.qual
+        tag = '%s/%s.loop%d' % (fq, fr.fi.qual, ordinal)
+        hl = dict(st.heap)
+        def view(s):
+            lv = LoopView(); lv.ctx, lv.se, lv.spec = c, se, self
+            lv.hf, lv.hl, lv.h = fr.heap, hl, s.heap
+            lv.env, lv.cur, lv.entry = fr.env, s.env, st.env
+            lv.frame = fr; lv.inv = self.inv; lv.st = s; lv.seen = None; lv.it = None; lv.i = None; lv.D = None; lv.n = None; lv.outer = None
+            return lv
+        def havoc(s):
+            s.env = dict(s.env)
+            for f in spec.modifies:
+                s.heap[f] = c.fresh(f.replace(':', '_') + '_wl', s.heap[f].sort())
+            for name, kind in spec.locals.items():
+                if kind == 'ref': s.env[name] = R(c.fresh(name, c.Ref))
+                elif kind == 'bool': s.env[name] = B(c.fresh(name, BoolSort()))
+                else: raise Unsupported('while-loop local kind %s' % kind)
+        for prop, name, g in spec.inv(view(st)):
+            se.oblige(st, '%s/%s/init/%s' % (prop, tag, name), g)
+        # preservation
+        sb = st.fork(); havoc(sb)
+        sb.pc += [g for _, _, g in spec.inv(view(sb))]
+        heap_in = dict(sb.heap); env_in = dict(sb.env)
+        def body_end(s2):
+            for f_ in s2.heap:
+                if f_ in spec.modifies: continue
+                if f_ not in heap_in or not s2.heap[f_].eq(heap_in[f_]):
+                    raise Unsupported('while-loop %d of %s stores to %s, which its invariant does not declare' % (ordinal, fr.fi.qual, f_))
+            for n_, v_ in s2.env.items():
+                if n_ in spec.locals or n_ not in env_in or n_ not in st.env: continue
+                w_ = env_in[n_]
+                if not (v_ is w_ or (len(v_) == len(w_) and all((a_ is b_) or (hasattr(a_, 'eq') and hasattr(b_, 'eq') and a_.eq(b_)) or (not hasattr(a_, 'eq') and a_ == b_)
+                                                              for a_, b_ in zip(v_, w_)))):
+                    raise Unsupported('while-loop %d of %s assigns the local %s, which its invariant does not declare' % (ordinal, fr.fi.qual, n_))
+            for prop, name, g in spec.inv(view(s2)):
+                se.oblige(s2, '%s/%s/preserve/%s' % (prop, tag, name), g)
+        def enter(s, v):
+            t = se.truth(s, v)
+            s_in = s.fork(); s_in.pc.append(t)
+            if se.sat(s_in): se.block(s_in, node.body, body_end, k_ret, None, body_end)
+        se.ev(sb, node.test, enter)
+        # after the loop
+        sa = st.fork(); havoc(sa)
+        sa.pc += [g for _, _, g in spec.inv(view(sa))]
+        def leave(s, v):
+            t = se.truth(s, v)
+            s.pc.append(Not(t))
+            if se.sat(s): nxt(s)
+        se.ev(sa, node.test, leave)
 
     def close_fresh(self, body, start, keep=()):
         """existentially close the auxiliary constants the executor introduced while running a body for ONE generic element
